@@ -50,6 +50,8 @@ def run(ctx):
                       "where the setter may still reject (explicit raise, self._validate, self.set_hook)", floor=6)
     ctx.rule("R02.a'", "every __set__ override performs its own effects only after super().__set__ (the rejecting call) returned", floor=2)
     ctx.rule("R02.b", "update's own unknown-key check precedes the first setattr of that key", floor=1)
+    ctx.rule("R02.c", "validators notify nobody: no function reachable from any Parameter type's _validate dispatches watchers (no _trigger_event/_call_watcher/flush, "
+                      "no ListProxy notification scope, no mutator call on the objects proxy)", floor=30)
     ctx.not_decided += ["that callees are effect-free before their own raises (Composite._post_setter assigns constituents one by one)",
                         "equality of the complete observable state before/after (needs execution)"]
     ctx.assumptions.append("frozen exclusion: the scheduling done inside _resolve_ref for coroutine references (there is no current value to reject)")
@@ -126,6 +128,33 @@ def run(ctx):
                 ctx.fail("R02.b", u, n, "setattr of key `%s` is not dominated by the `%s in self_` check: an unknown key is applied before it is rejected" % (key, key))
     ctx.require(loop_sets, "the per-key setattr loop of Parameters._update was not found")
 
+    # R02.c
+    DISPATCH = {"_trigger_event", "_call_watcher", "_batch_call_watchers", "_execute_watcher", "trigger", "_trigger"}
+    PROXY_MUT = {"append", "extend", "insert", "pop", "remove", "clear", "update", "__setitem__"}
+    for q in ctx.hier.parameter_classes():
+        if ctx.hier.resolve(q, "_validate") is None:
+            continue
+        bad = None
+        clos = ctx.hier.self_closure(q, "_validate")
+        for g in clos:
+            for c in ast.walk(g.node):
+                if isinstance(c, ast.Call) and isinstance(c.func, ast.Attribute):
+                    if c.func.attr in DISPATCH:
+                        bad = bad or (g, c, "dispatches via %s" % c.func.attr)
+                    if c.func.attr in PROXY_MUT and norm(c.func.value) == "self.objects":
+                        bad = bad or (g, c, "mutates the objects proxy (which notifies `objects` watchers)")
+            for w in ast.walk(g.node):
+                if isinstance(w, ast.With) and any(isinstance(i.context_expr, ast.Call) and isinstance(i.context_expr.func, ast.Attribute)
+                                                   and i.context_expr.func.attr == "_trigger" for i in w.items):
+                    bad = bad or (g, w, "enters a ListProxy notification scope")
+        if bad:
+            g, node, how = bad
+            ctx.fail("R02.c", g, node, "%s (reached from %s._validate) %s: watchers run during validation, i.e. before the constant/readonly check can still reject the assignment" % (
+                g.qualname.rsplit(".", 2)[-2] + "." + g.name, q.rsplit(".", 1)[-1], how), key="%s::validator-notifies" % g.qualname,
+                input="constant Selector(check_on_set=False) with an `objects` watcher; p.x = <new value> raises TypeError but the watcher has already run")
+        else:
+            ctx.ok("R02.c", ctx.hier.resolve(q, "_validate"), None, "%s: %d validator function(s), none notifies" % (q.rsplit(".", 1)[-1], len(clos)))
+
 
 def _enclosing_fors(fnode, target):
     out = []
@@ -140,3 +169,4 @@ def _enclosing_fors(fnode, target):
         return False
     visit(fnode, [])
     return out
+
